@@ -60,6 +60,8 @@ func runC20(c *Ctx) {
 	checkNoInPlaceInput(c, "R20f")
 	c.Rule("R20k", ruleTextPreferredSearch, 1)
 	checkPreferredSearch(c, "R20k")
+	c.Rule("R20l", ruleTextNoSharedHasher, 1)
+	checkNoSharedHasher(c, "R20l")
 	c.Rule("R20j", ruleTextTotalOrderOverMapKeys, 1)
 	checkTotalOrderOverMapKeys(c, "R20j")
 	c.Rule("R20h", ruleTextPlannerInputRO, 10)
